@@ -239,6 +239,15 @@ pub fn candidates(u: &Universe) -> Vec<Injection> {
                             "u32" | "i32" => 32,
                             _ => 64,
                         };
+                        // the same number written differently (decimal <-> hexadecimal, padded)
+                        if let Some(v0) = parse_int(&d.members[0].value_text) {
+                            if v0 >= 0 {
+                                let t0 = d.members[0].value_text.trim().to_string();
+                                let other = if t0.starts_with("0x") || t0.starts_with("0X") { v0.to_string() } else { format!("{:#04x}", v0) };
+                                let other = if other == t0 { format!("0x{:08X}", v0) } else { other };
+                                out.push(Injection { rule: "duplicate-enumerator-value-other-spelling", expect: 11, file: o.file, edits: vec![(vs, ve, format!(" {}", other))], object: d.name.clone(), site_class: fclass, what: format!("{}::{} = {} which equals {} = {}", d.name, m1.name, other, d.members[0].name, t0) });
+                            }
+                        }
                         out.push(Injection { rule: "duplicate-enumerator-value", expect: 11, file: o.file, edits: vec![(vs, ve, format!(" {}", d.members[0].value_text))], object: d.name.clone(), site_class: fclass, what: format!("{}::{} given the value of {}", d.name, m1.name, d.members[0].name) });
                         if bits < 64 && d.base.starts_with('u') {
                             out.push(Injection { rule: "enumerator-value-2^bits", expect: 22, file: o.file, edits: vec![(vs, ve, format!(" {}", 1u128 << bits))], object: d.name.clone(), site_class: fclass, what: format!("{}::{} = 2^{} for base {}", d.name, m1.name, bits, d.base) });
